@@ -1229,6 +1229,23 @@ def run(ctx):
         except Exception as e:  # noqa
             ctx.oblige("format table evaluates", False, str(e)[-2000:])
 
+    # ---- (a7) the hypotheses of C09_merge_fmt_exact about the format recognisers, on the sample strings
+    try:
+        SIX = ["ip", "ipv4", "ipv6", "uuid", "date", "date-time"]
+        samples = sorted({x for g_, b_ in schemagen.FORMAT_SAMPLES.values() for x in g_ + b_} |
+                         {"::ffff:1.2.3.4", "1.2.3.4", "0.0.0.0", "::", "2024-02-29T00:00:00+01:00", "00000000-0000-0000-0000-000000000000"})
+        okm = oracle.classify([({}, [({"type": "string", "format": f_}, sv) for sv in samples]) for f_ in SIX])
+        okm = {f_: dict(zip(samples, row)) for f_, row in zip(SIX, okm)}
+        related = lambda x, y: x == y or {x, y} in ({"ip", "ipv4"}, {"ip", "ipv6"})
+        hb = [("ipv4<=ip", sv) for sv in samples if okm["ipv4"][sv] and not okm["ip"][sv]] + \
+             [("ipv6<=ip", sv) for sv in samples if okm["ipv6"][sv] and not okm["ip"][sv]] + \
+             [("disjoint %s/%s" % (x, y), sv) for x in SIX for y in SIX if x < y and not related(x, y)
+              for sv in samples if okm[x][sv] and okm[y][sv]]
+        ctx.oblige("hypotheses of C09_merge_fmt_exact (ip >= ipv4, ipv6; unrelated formats disjoint) hold for the format "
+                   "recognisers on %d sample strings x 6 formats" % len(samples), not hb, json.dumps(hb[:5])[:800])
+    except Exception as e:  # noqa
+        ctx.oblige("format hypotheses evaluate", False, str(e)[-1500:])
+
     # ---- (a3) the reduced validator: exhaustive table against the model and against draft-07
     vt_bad, vt_diffs, vt_known = [], [], []
     if have_model:
